@@ -35,9 +35,34 @@ impl CE for GenericArray<u8, U0> {
         GenericArray::default()
     }
 }
+impl CE for GenericArray<Zn, U2> {
+    fn of(_c: i64) -> Self {
+        GenericArray::from([Zn, Zn])
+    }
+}
 impl CE for GenericArray<u8, U2> {
     fn of(c: i64) -> Self {
         GenericArray::from([c as u8 / 2, c as u8])
+    }
+}
+
+/// zero-sized element that is equal to nothing and comparable with nothing, itself included (code 9 only)
+#[derive(Clone, Debug)]
+pub struct Zn;
+impl PartialEq for Zn {
+    fn eq(&self, _o: &Zn) -> bool {
+        false
+    }
+}
+impl PartialOrd for Zn {
+    fn partial_cmp(&self, _o: &Zn) -> Option<Ordering> {
+        None
+    }
+}
+impl CE for Zn {
+    fn of(c: i64) -> Zn {
+        assert!(c == 9, "HARNESS: znan takes code 9 only");
+        Zn
     }
 }
 
@@ -168,6 +193,7 @@ pub fn run(scn: &str, out: &mut dyn Write) {
             "u8" => by_len!(n, N => { pair::<u8, N>(ety, &a, &b, true, out); ordpair::<u8, N>(ety, &a, &b, out); if a == b { dbg::<u8, N>(ety, &a, out) } }),
             "i32" => by_len!(n, N => { pair::<i32, N>(ety, &a, &b, true, out); ordpair::<i32, N>(ety, &a, &b, out); if a == b { dbg::<i32, N>(ety, &a, out) } }),
             "f64" => by_len!(n, N => { pair::<f64, N>(ety, &a, &b, false, out); if a == b { dbg::<f64, N>(ety, &a, out) } }),
+            "znan" => by_len!(n, N => { pair::<Zn, N>(ety, &a, &b, false, out); pair::<GenericArray<Zn, U2>, N>(ety, &a, &b, false, out); if a == b { dbg::<Zn, N>(ety, &a, out) } }),
             "string" => by_len!(n, N => { pair::<String, N>(ety, &a, &b, true, out); ordpair::<String, N>(ety, &a, &b, out); if a == b { dbg::<String, N>(ety, &a, out) } }),
             "nested0" => by_len!(n, N => { pair::<GenericArray<u8, U0>, N>(ety, &a, &b, true, out); ordpair::<GenericArray<u8, U0>, N>(ety, &a, &b, out); }),
             "nested" => by_len!(n, N => { pair::<GenericArray<u8, U2>, N>(ety, &a, &b, true, out); ordpair::<GenericArray<u8, U2>, N>(ety, &a, &b, out); if a == b { dbg::<GenericArray<u8, U2>, N>(ety, &a, out) } }),
